@@ -251,7 +251,7 @@ def eval_isect(triples, tier, rng):
         if sA and sB and len(certs) < 3000 and rng.random() < 0.1:
             g = 'None' if res is None else 'Some %s' % F.g_range(res)
             certs.append('r_intersect %s %s = %s' % (F.g_range(sA), F.g_range(sB), g))
-    return {'failures': fails[:40], 'nontrivial': nontrivial, 'distribution': dist, 'certs': certs}
+    return {'failures': fails, 'nontrivial': nontrivial, 'distribution': dist, 'certs': certs}
 
 # ------------------------------------------------------------------ C08
 def eval_diff(triples, tier, rng):
@@ -294,7 +294,7 @@ def eval_diff(triples, tier, rng):
         if sA and sB and len(certs) < 3000 and rng.random() < 0.1:
             g = 'Ok None' if res is None else 'Ok (Some %s)' % F.g_range(res)
             certs.append('r_difference %s %s = %s' % (F.g_range(sA), F.g_range(sB), g))
-    return {'failures': fails[:40], 'nontrivial': nontrivial, 'distribution': dist, 'certs': certs}
+    return {'failures': fails, 'nontrivial': nontrivial, 'distribution': dist, 'certs': certs}
 
 # ------------------------------------------------------------------ C09
 def eval_allows_any(triples, tier, rng):
@@ -334,7 +334,7 @@ def eval_allows_any(triples, tier, rng):
         sA, sB = obs.struct.get(ka), obs.struct.get(kb)
         if sA and sB and len(certs) < 3000 and rng.random() < 0.1:
             certs.append('r_allows_any %s %s = %s' % (F.g_range(sA), F.g_range(sB), F.g_bool(res)))
-    return {'failures': fails[:40], 'nontrivial': nontrivial, 'distribution': dist, 'certs': certs}
+    return {'failures': fails, 'nontrivial': nontrivial, 'distribution': dist, 'certs': certs}
 
 # ------------------------------------------------------------------ C10
 def eval_allows_all(triples, tier, rng):
@@ -379,7 +379,7 @@ def eval_allows_all(triples, tier, rng):
             if d not in ('missing', 'panic', 'operand-none') and res != (d is None):
                 fails.append(fail('%s.allows_all(%s) = %s but %s.difference(%s) is %s' % (rtext(a), rtext(b), res, rtext(b), rtext(a), 'None' if d is None else 'Some'),
                                   case, input=[rtext(a), rtext(b)], kind='all-diff'))
-    return {'failures': fails[:40], 'nontrivial': nontrivial, 'distribution': dist, 'certs': certs}
+    return {'failures': fails, 'nontrivial': nontrivial, 'distribution': dist, 'certs': certs}
 
 # ------------------------------------------------------------------ C15
 def denote(e, obs, v):
@@ -437,7 +437,7 @@ def eval_trees(triples, tier, rng):
                 if sd.startswith('(bad') or sd == 'panic' or sd.endswith(' none)'):
                     fails.append(fail('%s prints as `%s`, which does not round-trip through parse/serde: %s' % (rtext(e), pr, sd[:120]),
                                       obs.case_of[('serde_r', key)], input=[rtext(e), pr], kind='tree-reparse'))
-    return {'failures': fails[:40], 'nontrivial': nontrivial, 'distribution': dist, 'certs': []}
+    return {'failures': fails, 'nontrivial': nontrivial, 'distribution': dist, 'certs': []}
 
 def denote_opt(e, obs, v):
     """Boolean algebra over bounds membership of the leaves (an unparseable leaf is the empty set)"""
@@ -533,4 +533,4 @@ def eval_minv(triples, tier, rng):
                                   input=[rtext(e), vtext(m), vtext(lower[0])], kind='minv-not-least'))
         if st and len(certs) < 3000 and rng.random() < 0.3:
             certs.append('r_min_version %s = %s' % (F.g_range(st), 'None' if m is None else 'Some %s' % F.g_version(m)))
-    return {'failures': fails[:40], 'nontrivial': nontrivial, 'distribution': dist, 'certs': certs}
+    return {'failures': fails, 'nontrivial': nontrivial, 'distribution': dist, 'certs': certs}
